@@ -7,6 +7,7 @@ import (
 	"time"
 
 	"kmc/core"
+	"kmc/ref"
 
 	"github.com/sboehler/knut/lib/common/date"
 )
@@ -22,44 +23,14 @@ var intervals = []date.Interval{date.Once, date.Daily, date.Weekly, date.Monthly
 
 func day(y int, m time.Month, d int) time.Time { return time.Date(y, m, d, 0, 0, 0, 0, time.UTC) }
 
-// unitID identifies the calendar unit containing t (independent of knut's StartOf/EndOf).
-func unitID(t time.Time, iv date.Interval) int {
-	y, m, _ := t.Date()
-	switch iv {
-	case date.Daily:
-		return int(t.Unix() / 86400)
-	case date.Weekly:
-		// days since Monday 1969-12-29
-		return int((t.Unix()/86400 + 3) / 7)
-	case date.Monthly:
-		return y*12 + int(m) - 1
-	case date.Quarterly:
-		return y*4 + (int(m)-1)/3
-	case date.Yearly:
-		return y
-	}
-	return 0
-}
 
-type refPeriod struct{ s, e time.Time }
-
-// RefPartition is the reference: the periods of [s,e] for the interval, last n kept.
-func RefPartition(s, e time.Time, iv date.Interval, last int) []refPeriod {
-	var ps []refPeriod
-	if iv == date.Once {
-		return []refPeriod{{s, e}}
+// RefPartition adapts the shared calendar reference to knut's interval type.
+func RefPartition(s, e time.Time, iv date.Interval, last int) []struct{ s, e time.Time } {
+	var res []struct{ s, e time.Time }
+	for _, p := range ref.Partition(s, e, ref.Interval(iv), last) {
+		res = append(res, struct{ s, e time.Time }{p.S, p.E})
 	}
-	for d := s; !d.After(e); d = d.AddDate(0, 0, 1) {
-		if n := len(ps); n > 0 && unitID(ps[n-1].e, iv) == unitID(d, iv) {
-			ps[n-1].e = d
-		} else {
-			ps = append(ps, refPeriod{d, d})
-		}
-	}
-	if last > 0 && len(ps) > last {
-		ps = ps[len(ps)-last:]
-	}
-	return ps
+	return res
 }
 
 type c11Case struct {
